@@ -63,6 +63,8 @@ std::string digits_of(const std::string &s) {
     return d.empty() ? "-" : d;
 }
 
+struct SubscriberThrew {};
+
 template <class T, class Eq, bool IsFloat>
 void run_num(const Execution &ex) {
     using Obs = tulz::Observable<T, Eq>;
@@ -78,6 +80,8 @@ void run_num(const Execution &ex) {
         long ret = 0;
         bool has_ret = false;
         notes.clear();
+        bool threw = false;
+        try {
         if (op == "Assign") o = Conv<T>::to(v);
         else if (op == "Add") o += Conv<T>::to(v);
         else if (op == "Sub") o -= Conv<T>::to(v);
@@ -121,14 +125,22 @@ void run_num(const Execution &ex) {
             has_ret = true;
         } else if (op == "Subscribe") {
             int s = (int) st.num("s");
-            subs[s] = o.subscribe([s, &notes](T val) { notes.push_back({s, Conv<T>::from(val)}); });
+            // thrower=1: the callback of subscriber 2 records the notification and then throws out of the operator that notified
+            bool thr = s == 2 && ex.cfg.num("thrower", 0) != 0;
+            subs[s] = o.subscribe([s, thr, &notes](T val) {
+                notes.push_back({s, Conv<T>::from(val)});
+                if (thr) throw SubscriberThrew{};
+            });
         } else if (op == "Unsubscribe") {
             int s = (int) st.num("s");
             subs[s].unsubscribe();
             subs.erase(s);
         }
+        } catch (const SubscriberThrew &) {
+            threw = true;
+        }
         if (!has_ret) ret = Conv<T>::from(o.value());
-        std::string s = "\"e\":\"Obs\",\"i\":" + std::to_string(i) + ",\"op\":" + jstr(op) + ",\"ret\":" + std::to_string(ret) +
+        std::string s = "\"e\":\"Obs\",\"i\":" + std::to_string(i) + ",\"op\":" + jstr(op) + ",\"ret\":" + std::to_string(ret) + ",\"threw\":" + (threw ? "true" : "false") +
                         ",\"val\":" + std::to_string(Conv<T>::from(*o)) + ",\"notes\":[";
         for (size_t k = 0; k < notes.size(); ++k) {
             if (k) s += ",";
